@@ -103,7 +103,6 @@ Section Proofs.
 Variable calc1 : nat -> nat -> option phase -> vec -> Q -> Q -> Q.
 Variable calcx : nat -> nat -> list (phase * vec) -> Q -> Q -> Q.
 Variable shared_key : bool.
-Variable cvol : nat -> phase -> Q -> Q -> Q.
 
 (* the property-package functions respect numeric equality of their arguments *)
 Definition calc1_respects : Prop := forall pkg name p z z' T T' P P',
@@ -117,10 +116,6 @@ Hypothesis calcx_ext : calcx_respects.
 Notation value_at := (value_at calc1 calcx).
 Notation get_property := (get_property calc1 calcx).
 Notation spec_read := (spec_read calc1 calcx).
-Notation step := (step calc1 calcx shared_key cvol).
-Notation step_valid := (step_valid calc1 calcx shared_key cvol).
-Notation run := (run calc1 calcx shared_key cvol).
-Notation run_world := (run_world calc1 calcx shared_key cvol).
 Notation read_all := (read_all calc1 calcx).
 
 Lemma value_at_ext pkg name l0 c0 lit ck :
@@ -383,6 +378,11 @@ Proof.
 Qed.
 
 (* ---------- the cache component along a step ---------- *)
+Variable cvol : nat -> phase -> Q -> Q -> Q.
+Notation step := (step calc1 calcx shared_key cvol).
+Notation step_valid := (step_valid calc1 calcx shared_key cvol).
+Notation run := (run calc1 calcx shared_key cvol).
+Notation run_world := (run_world calc1 calcx shared_key cvol).
 Inductive creach : cstate -> cstate -> Prop :=
 | cr_refl c : creach c c
 | cr_get c c' s i name fl np : (i < nobj c)%nat ->
@@ -701,8 +701,8 @@ Proof. unfold empty, nob; cbn. rewrite map_rows_objs. reflexivity. Qed.
 
 Lemma link_nob s i j a b c : nob (fst (link_with s i j a b c)) = nob s.
 Proof.
-  unfold link_with. destruct (negb _); [reflexivity|]. cbn [fst ok]. unfold nob.
-  destruct c; cbn; rewrite ?upd_length; reflexivity.
+  unfold link_with, new_dc, nob. destruct (negb _); [reflexivity|].
+  destruct c, a, b, (i_multi (imol_of s (o_imol (obj_of s i)))); cbn; rewrite ?upd_length; reflexivity.
 Qed.
 
 Lemma unlink_nob s i : nob (fst (unlink s i)) = nob s.
@@ -767,7 +767,7 @@ Proof.
   unfold reset_chem.
   set (im := imol_of s (o_imol (obj_of s i))).
   destruct (i_multi im) eqn:M.
-  - destruct (new_rows s _) as [sa rs] eqn:E. apply new_rows_objs in E. cbn [new_arr fst snd].
+  - destruct (new_rows s _) as [sa rs] eqn:E. apply new_rows_objs in E. cbn [new_arr new_dc fst snd].
     match goal with |- nob (fold_left ?f ?l ?s0) = _ =>
       assert (G : forall l0 s1, nob (fold_left f l0 s1) = nob s1) end.
     { induction l0 as [|[p n] t IH]; intros s1; cbn [fold_left]; auto.
@@ -777,6 +777,9 @@ Proof.
   - destruct (copy_data s im) as [s1 d] eqn:E. apply copy_data_objs in E.
     unfold nob; cbn. rewrite E. reflexivity.
 Qed.
+
+Lemma by_volume_objs s i : objs (fst (by_volume s i)) = objs s.
+Proof. unfold by_volume. destruct (find_dc _ _); reflexivity. Qed.
 
 Section Align.
 Variable calc1 : nat -> nat -> option phase -> vec -> Q -> Q -> Q.
@@ -820,6 +823,9 @@ Proof.
     destruct (get_property calc1 calcx (mkw s c) i name flow nophase) as [w1 r] eqn:E. cbn [fst].
     replace w1 with (fst (get_property calc1 calcx (mkw s c) i name flow nophase)) by (rewrite E; reflexivity).
     unfold aligned. rewrite get_property_st, get_property_cobjs. exact A.
+  - (* ORVol *)
+    unfold read_vol. pose proof (by_volume_objs s i) as U. destruct (by_volume s i) as [s1 e].
+    cbn [fst] in U. unfold aligned; cbn [fst w_st w_cs]. rewrite U. exact A.
   - apply lift_aligned; [reflexivity | exact A].
   - apply lift_aligned; [reflexivity | exact A].
   - apply lift_aligned; [apply set_phase_nob | exact A].
@@ -915,7 +921,7 @@ Lemma equals_fresh_stream calc1 calcx cv :
 Proof.
   intros H1 Hx ops i name flow nophase d p T P w' Hi HP wn.
   assert (A : aligned w') by (apply run_aligned; reflexivity).
-  assert (I' : Inv calc1 calcx (w_cs w')) by exact (run_inv calc1 calcx true cv H1 Hx ops w0 (or_introl eq_refl) (Inv_cs0 calc1 calcx)).
+  assert (I' : Inv calc1 calcx (w_cs w')) by exact (run_inv calc1 calcx true H1 Hx cv ops w0 (or_introl eq_refl) (Inv_cs0 calc1 calcx)).
   pose proof (new_stream_pstate calc1 calcx true cv w' d p T P (c_pkg (cobj_of (w_cs w') i))) as [NP NA].
   destruct (NA A) as [NK NL]. fold wn in NP, NK, NL.
   assert (In' : Inv calc1 calcx (w_cs wn)).
@@ -928,4 +934,523 @@ Proof.
   eapply rd_equiv_trans; [apply (get_property_spec calc1 calcx H1 Hx wn _); [exact In' | exact Hn]|].
   rewrite (spec_read_pstate calc1 calcx wn (length (objs (w_st w'))) w' i); [apply rd_equiv_refl| |exact NK].
   rewrite NP, HP. reflexivity.
+Qed.
+(* ---------- volumetric views: the _data_cache invariant ---------- *)
+Definition capkey (im : imol) : nat * list phase * option nat :=
+  if i_multi im then (i_data im, i_phases im, None) else (i_data im, [], Some (i_ph im)).
+Definition ekey (e : dcent) : nat * list phase * option nat := (d_data e, d_phases e, d_ph e).
+
+Lemma ekey_capture tc im : ekey (capture tc im) = capkey im.
+Proof. unfold capture, capkey, ekey. destruct (i_multi im); reflexivity. Qed.
+
+Record SInvG (ob : list sobj) (ims : list imol) (ds : list (list dcent)) : Prop := mkSI {
+  si_owf : forall i, (i < length ob)%nat -> (o_imol (nth i ob d_obj) < length ims)%nat;
+  si_dcwf : forall r, (r < length ims)%nat -> (i_dc (nth r ims d_imol) < length ds)%nat;
+  si_cap : forall r, (r < length ims)%nat -> forall e, In e (nth (i_dc (nth r ims d_imol)) ds []) ->
+             ekey e = capkey (nth r ims d_imol);
+  si_share : forall r r', (r < length ims)%nat -> (r' < length ims)%nat ->
+             i_dc (nth r ims d_imol) = i_dc (nth r' ims d_imol) ->
+             capkey (nth r ims d_imol) = capkey (nth r' ims d_imol) }.
+
+Definition SInv (s : state) : Prop := SInvG (objs s) (imols s) (dcs s).
+
+Lemma SInv_st0 : SInv st0.
+Proof. split; cbn; intros; lia. Qed.
+
+(* P1: a new indexer with its own empty dict *)
+Lemma si_new_imol ob ims ds v : i_dc v = length ds -> SInvG ob ims ds -> SInvG ob (ims ++ [v]) (ds ++ [[]]).
+Proof.
+  intros Hv [OW DW CA SH]. split.
+  - intros i Hi. rewrite app_length; cbn. specialize (OW i Hi). lia.
+  - intros r Hr. rewrite !app_length in *; cbn in *.
+    destruct (Nat.eq_dec r (length ims)) as [->|N].
+    + rewrite nth_app_new. lia.
+    + rewrite nth_app_old by lia. specialize (DW r ltac:(lia)). lia.
+  - intros r Hr e He. rewrite app_length in Hr; cbn in Hr.
+    destruct (Nat.eq_dec r (length ims)) as [->|N].
+    + rewrite nth_app_new in He |- *. rewrite Hv, nth_app_new in He. destruct He.
+    + rewrite nth_app_old in He |- * by lia. pose proof (DW r ltac:(lia)) as D.
+      rewrite nth_app_old in He by exact D. apply CA; [lia | exact He].
+  - intros r r' Hr Hr' E. rewrite app_length in Hr, Hr'; cbn in Hr, Hr'.
+    destruct (Nat.eq_dec r (length ims)) as [->|N], (Nat.eq_dec r' (length ims)) as [->|N']; auto.
+    + rewrite nth_app_new in E. rewrite nth_app_old in E by lia. pose proof (DW r' ltac:(lia)). lia.
+    + rewrite nth_app_new in E. rewrite nth_app_old in E by lia. pose proof (DW r ltac:(lia)). lia.
+    + rewrite !nth_app_old in * by lia. apply SH; auto; lia.
+Qed.
+
+(* P2 / P3: objects *)
+Lemma si_new_obj ob ims ds x : (o_imol x < length ims)%nat -> SInvG ob ims ds -> SInvG (ob ++ [x]) ims ds.
+Proof.
+  intros Hx [OW DW CA SH]. split; auto.
+  intros i Hi. rewrite app_length in Hi; cbn in Hi.
+  destruct (Nat.eq_dec i (length ob)) as [->|N]; [rewrite nth_app_new; exact Hx|].
+  rewrite nth_app_old by lia. apply OW; lia.
+Qed.
+
+Lemma si_wr_obj ob ims ds i x :
+  ((i < length ob)%nat -> (o_imol x < length ims)%nat) -> SInvG ob ims ds -> SInvG (upd ob i x) ims ds.
+Proof.
+  intros Hx [OW DW CA SH]. split; auto.
+  intros k Hk. rewrite upd_length in Hk. rewrite nth_upd.
+  destruct (Nat.eqb_spec i k) as [->|N]; cbn [andb]; [|apply OW; exact Hk].
+  destruct (Nat.ltb_spec k (length ob)); [apply Hx; assumption | lia].
+Qed.
+
+(* P4: an indexer is rebound to a new empty dict (its data / phase may change at the same time) *)
+Lemma si_rebind_fresh ob ims ds r im' : i_dc im' = length ds -> SInvG ob ims ds -> SInvG ob (upd ims r im') (ds ++ [[]]).
+Proof.
+  intros Hd [OW DW CA SH]. split.
+  - intros i Hi. rewrite upd_length. apply OW; exact Hi.
+  - intros k Hk. rewrite upd_length in Hk. rewrite app_length; cbn. rewrite nth_upd.
+    destruct (Nat.eqb r k && Nat.ltb r (length ims))%bool; [lia | specialize (DW k Hk); lia].
+  - intros k Hk e He. rewrite upd_length in Hk. rewrite nth_upd in He |- *.
+    destruct (Nat.eqb r k && Nat.ltb r (length ims))%bool.
+    + rewrite Hd, nth_app_new in He. destruct He.
+    + pose proof (DW k Hk) as D. rewrite nth_app_old in He by exact D. apply CA; assumption.
+  - intros k k' Hk Hk' E. rewrite upd_length in Hk, Hk'. rewrite !nth_upd in *.
+    destruct (Nat.eqb r k && Nat.ltb r (length ims))%bool eqn:B, (Nat.eqb r k' && Nat.ltb r (length ims))%bool eqn:B'; auto.
+    + pose proof (DW k' Hk'). lia.
+    + pose proof (DW k Hk). lia.
+Qed.
+
+(* P5: an indexer is rebound to the dict of another indexer and ends up holding the same data / phase as that one *)
+Lemma si_rebind_share ob ims ds r r2 im' :
+  (r2 < length ims)%nat -> i_dc im' = i_dc (nth r2 ims d_imol) -> capkey im' = capkey (nth r2 ims d_imol) ->
+  SInvG ob ims ds -> SInvG ob (upd ims r im') ds.
+Proof.
+  intros H2 Hd Hc [OW DW CA SH]. split.
+  - intros i Hi. rewrite upd_length. apply OW; exact Hi.
+  - intros k Hk. rewrite upd_length in Hk. rewrite nth_upd.
+    destruct (Nat.eqb r k && Nat.ltb r (length ims))%bool; [rewrite Hd; apply DW; exact H2 | apply DW; exact Hk].
+  - intros k Hk e He. rewrite upd_length in Hk. rewrite nth_upd in He |- *.
+    destruct (Nat.eqb r k && Nat.ltb r (length ims))%bool.
+    + rewrite Hd in He. rewrite Hc. apply CA; assumption.
+    + apply CA; assumption.
+  - intros k k' Hk Hk' E. rewrite upd_length in Hk, Hk'. rewrite !nth_upd in *.
+    destruct (Nat.eqb r k && Nat.ltb r (length ims))%bool, (Nat.eqb r k' && Nat.ltb r (length ims))%bool; auto.
+    + rewrite Hc. apply SH; auto. rewrite <- Hd. exact E.
+    + rewrite Hc. symmetry. apply SH; auto. rewrite <- Hd. symmetry. exact E.
+Qed.
+
+(* P6: by_volume stores a new view in the dict of an indexer *)
+Lemma si_add_entry ob ims ds r e :
+  (r < length ims)%nat -> ekey e = capkey (nth r ims d_imol) -> SInvG ob ims ds ->
+  SInvG ob ims (upd ds (i_dc (nth r ims d_imol)) (nth (i_dc (nth r ims d_imol)) ds [] ++ [e])).
+Proof.
+  intros Hr He [OW DW CA SH]. split; auto.
+  - intros k Hk. rewrite upd_length. apply DW; exact Hk.
+  - intros k Hk e' He'. rewrite nth_upd in He'.
+    destruct (Nat.eqb_spec (i_dc (nth r ims d_imol)) (i_dc (nth k ims d_imol))) as [E|N]; cbn [andb] in He'.
+    + destruct (Nat.ltb_spec (i_dc (nth r ims d_imol)) (length ds)) as [L|G]; [|pose proof (DW r Hr); lia].
+      apply in_app_or in He' as [I|[<-|[]]].
+      * rewrite E in I. apply CA; assumption.
+      * rewrite He. apply SH; assumption.
+    + apply CA; assumption.
+Qed.
+
+(* ---------- frames: operations that touch neither objects' indexer refs, nor indexers, nor dicts ---------- *)
+Definition same3 (s s' : state) : Prop := objs s' = objs s /\ imols s' = imols s /\ dcs s' = dcs s.
+Lemma same3_refl s : same3 s s. Proof. repeat split. Qed.
+Lemma same3_trans a b c : same3 a b -> same3 b c -> same3 a c.
+Proof. intros (A1 & A2 & A3) (B1 & B2 & B3). repeat split; congruence. Qed.
+Lemma same3_sinv s s' : same3 s s' -> SInv s -> SInv s'.
+Proof. intros (A1 & A2 & A3). unfold SInv. rewrite A1, A2, A3. auto. Qed.
+
+Lemma new_rows_same3 vs s s' rs : new_rows s vs = (s', rs) -> same3 s s'.
+Proof.
+  revert s s' rs; induction vs as [|v t IH]; intros s s' rs H; cbn in H.
+  - injection H as <- _. apply same3_refl.
+  - destruct (new_rows (set_rows s (rows s ++ [v])) t) as [s2 rs2] eqn:E.
+    injection H as <- _. apply IH in E. exact E.
+Qed.
+Lemma map_rows_same3 f rs s : same3 s (map_rows s f rs).
+Proof.
+  revert s; induction rs as [|r t IH]; intros s; cbn; [apply same3_refl|].
+  eapply same3_trans; [|apply IH]. repeat split.
+Qed.
+Lemma copy_data_same3 s im s' d : copy_data s im = (s', d) -> same3 s s'.
+Proof.
+  unfold copy_data. destruct (i_multi im).
+  - destruct (new_rows s _) as [s1 rs] eqn:E. intros H. injection H as <- _. apply new_rows_same3 in E.
+    eapply same3_trans; [exact E|]. repeat split.
+  - intros H. injection H as <- _. repeat split.
+Qed.
+Lemma set_pcell_same3 s r p : same3 s (fst (set_pcell s r p)).
+Proof. unfold set_pcell. destruct (p_locked _); [destruct (Nat.eqb _ _)|]; repeat split. Qed.
+
+Lemma set_flow_same3 s i p j v : same3 s (fst (set_flow s i p j v)).
+Proof.
+  unfold set_flow. destruct (i_multi _); [|repeat split].
+  destruct (index_of _ _); [|repeat split]. destruct (nth_error _ _); repeat split.
+Qed.
+Lemma scale_same3 s i k : same3 s (fst (scale s i k)).
+Proof. unfold scale; cbn. apply map_rows_same3. Qed.
+Lemma fmol_same3 s i k : same3 s (fst (fmol_times s i k)).
+Proof. unfold fmol_times. destruct (qzerob _); [apply same3_refl | apply scale_same3]. Qed.
+Lemma empty_same3 s i : same3 s (fst (empty s i)).
+Proof. unfold empty; cbn. apply map_rows_same3. Qed.
+Lemma copy_phase_same3 s i j : same3 s (fst (copy_phase s i j)).
+Proof.
+  unfold copy_phase. destruct (i_multi _); [apply same3_refl|]. destruct (i_multi _); [apply same3_refl|].
+  apply set_pcell_same3.
+Qed.
+Lemma copy_like_same3 s i j : same3 s (fst (copy_like_11 s i j)).
+Proof.
+  unfold copy_like_11. destruct (Nat.eqb _ _); [repeat split|].
+  match goal with |- context [set_pcell ?a ?b ?c] => pose proof (set_pcell_same3 a b c) as U; destruct (set_pcell a b c) as [s2 [e|]] end;
+    cbn [fst] in *; (eapply same3_trans; [|eapply same3_trans; [exact U|]]); repeat split.
+Qed.
+Lemma mix_flows_same3 s i srcs : same3 s (mix_flows s i srcs).
+Proof.
+  unfold mix_flows. cbn.
+  destruct (map _ srcs) as [|f t]; [repeat split|].
+  destruct (forallb _ t); [|repeat split].
+  match goal with |- context [set_pcell ?a ?b ?c] => pose proof (set_pcell_same3 a b c) as (U1 & U2 & U3) end.
+  repeat split; cbn; assumption.
+Qed.
+
+(* ---------- structural operations ---------- *)
+Lemma SInv_owf s i : SInv s -> (i < length (objs s))%nat -> (o_imol (obj_of s i) < length (imols s))%nat.
+Proof. intros H Hi. apply (si_owf _ _ _ H i Hi). Qed.
+
+Lemma multi_to_single_sinv s i p : SInv s -> SInv (multi_to_single s i p).
+Proof.
+  intros H. unfold SInv, multi_to_single; cbn.
+  apply si_wr_obj; [intros _; cbn; rewrite app_length; cbn; lia|].
+  apply si_new_imol; [reflexivity | exact H].
+Qed.
+
+Lemma set_phase_sinv s i p : SInv s -> SInv (fst (set_phase s i p)).
+Proof.
+  intros H. unfold set_phase. destruct (i_multi _); cbn [fst ok].
+  - apply multi_to_single_sinv, H.
+  - eapply same3_sinv; [apply set_pcell_same3 | exact H].
+Qed.
+
+Lemma copy_imol_with_sinv s im d s' r :
+  copy_imol_with s im d = (s', r) -> SInv s ->
+  SInv s' /\ r = length (imols s) /\ length (imols s') = S (length (imols s)) /\ objs s' = objs s.
+Proof.
+  unfold copy_imol_with. destruct (i_multi im); intros E H; injection E as <- <-; unfold SInv; cbn;
+    (split; [apply si_new_imol; [reflexivity | exact H] | rewrite app_length; cbn; repeat split; lia]).
+Qed.
+
+Lemma st_proxy_sinv s i : SInv s -> (i < length (objs s))%nat -> SInv (st_proxy s i).
+Proof.
+  intros H Hi. unfold SInv, st_proxy; cbn. apply si_new_obj; [cbn; apply SInv_owf; assumption | exact H].
+Qed.
+
+Lemma st_flow_proxy_sinv s i : SInv s -> SInv (st_flow_proxy s i).
+Proof.
+  intros H. unfold st_flow_proxy.
+  destruct (copy_imol_with s _ _) as [s1 ir] eqn:E. apply copy_imol_with_sinv in E as (H1 & -> & L & O); [|exact H].
+  unfold SInv in *; cbn. apply si_new_obj; [cbn; lia | exact H1].
+Qed.
+
+Lemma st_copy_sinv s i : SInv s -> SInv (st_copy s i).
+Proof.
+  intros H. unfold st_copy.
+  destruct (copy_data s _) as [s1 d] eqn:E. apply copy_data_same3 in E. pose proof (same3_sinv _ _ E H) as H1.
+  destruct (copy_imol_with s1 _ _) as [s2 ir] eqn:E2. apply copy_imol_with_sinv in E2 as (H2 & -> & L & O); [|exact H1].
+  unfold SInv in *; cbn. apply si_new_obj; [cbn; lia | exact H2].
+Qed.
+
+Lemma unlink_sinv s i : SInv s -> (i < length (objs s))%nat -> SInv (fst (unlink s i)).
+Proof.
+  intros H Hi. unfold unlink. destruct (_ && _)%bool; [exact H|].
+  pose proof (SInv_owf s i H Hi) as OI.
+  set (im := imol_of s (o_imol (obj_of s i))) in *.
+  assert (G : forall s1, same3 s s1 ->
+     SInv (fst (let (s2, d) := copy_data s1 im in
+                let (s3, dc) := new_dc s2 in
+                let s4 := wr_imol s3 (o_imol (obj_of s i)) (mkimol (i_multi im) d (if i_multi im then i_ph im else length (phs s)) (i_phases im) dc) in
+                let (s5, tr) := new_tc s4 (tc_of s (o_tc (obj_of s i))) in
+                ok (wr_obj s5 i (mkobj (o_imol (obj_of s i)) tr (o_views (obj_of s i)) (o_hasv (obj_of s i) || i_multi im)))))).
+  { intros s1 S1. destruct (copy_data s1 im) as [s2 d] eqn:E. apply copy_data_same3 in E.
+    pose proof (same3_trans _ _ _ S1 E) as (E1 & E2 & E3).
+    unfold SInv; cbn. rewrite E1, E2, E3.
+    apply si_wr_obj; [intros _; cbn; rewrite upd_length; exact OI|].
+    apply si_rebind_fresh; [reflexivity | exact H]. }
+  destruct (i_multi im) eqn:M.
+  - apply (G s (same3_refl s)).
+  - unfold new_p. cbv beta iota. apply (G (set_phs s (phs s ++ [mkp (phase_of s im) false]))). repeat split.
+Qed.
+
+Lemma single_to_multi_sinv s i ps : SInv s -> SInv (single_to_multi s i ps).
+Proof.
+  intros H. unfold single_to_multi.
+  destruct (new_rows s _) as [s1 rs] eqn:E. apply new_rows_same3 in E as (E1 & E2 & E3).
+  unfold SInv; cbn. rewrite E1, E2, E3.
+  apply si_wr_obj; [intros _; cbn; rewrite app_length; cbn; lia|].
+  apply si_new_imol; [reflexivity | exact H].
+Qed.
+
+(* re-attaching phase views: each step allocates an indexer and points a view object at it *)
+Lemma reattach_step_sinv st n v : (forall d, i_dc (v d) = d) -> SInv st ->
+  SInv (let (st1, vr) := new_imol st v in wr_obj st1 n (mkobj vr (o_tc (obj_of st1 n)) (o_views (obj_of st1 n)) (o_hasv (obj_of st1 n)))).
+Proof.
+  intros Hv H. unfold SInv; cbn.
+  apply si_wr_obj; [intros _; cbn; rewrite app_length; cbn; lia|].
+  apply si_new_imol; [apply Hv | exact H].
+Qed.
+
+Lemma multi_rephase_sinv s i ps : SInv s -> SInv (fst (multi_rephase s i ps)).
+Proof.
+  intros H. unfold multi_rephase. destruct (existsb _ _); [exact H|].
+  destruct (new_rows s _) as [s1 rs] eqn:E. apply new_rows_same3 in E.
+  cbn [new_arr fst snd].
+  match goal with |- context [new_imol ?a ?b] => destruct (new_imol a b) as [s3 ir] eqn:E3 end.
+  assert (H3 : SInv s3 /\ (ir < length (imols s3))%nat).
+  { unfold new_imol in E3. injection E3 as <- <-. destruct E as (E1 & E2 & E3). unfold SInv; cbn. rewrite E1, E2, E3.
+    split; [apply si_new_imol; [reflexivity | exact H] | rewrite app_length; cbn; lia]. }
+  destruct H3 as [H3 L3].
+  match goal with |- context [fold_left ?f ?l ?a0] =>
+    assert (G : forall l0 st kept, SInv st -> (ir < length (imols st))%nat ->
+                SInv (fst (fold_left f l0 (st, kept))) /\ (ir < length (imols (fst (fold_left f l0 (st, kept)))))%nat) end.
+  { induction l0 as [|[p n] t IH]; intros st kept HS HL; cbn [fold_left]; [split; assumption|].
+    cbn [fst snd]. destruct (index_of p ps) as [k|]; [|apply IH; assumption].
+    cbn [new_imol]. apply IH.
+    - apply (reattach_step_sinv st n (mkimol false (nth k rs O) p [])); [reflexivity | exact HS].
+    - cbn. rewrite upd_length || idtac. cbn. rewrite app_length; cbn; lia. }
+  match goal with |- context [fold_left ?f ?l (?st, ?k)] =>
+    specialize (G l st k H3 L3); destruct (fold_left f l (st, k)) as [s4 vs] end.
+  cbn [fst] in G. destruct G as [G1 G2]. cbn [fst ok].
+  unfold SInv in *; cbn. apply si_wr_obj; [intros _; cbn; exact G2 | exact G1].
+Qed.
+
+Lemma reset_chem_sinv s i : SInv s -> (i < length (objs s))%nat -> SInv (reset_chem s i).
+Proof.
+  intros H Hi. unfold reset_chem. pose proof (SInv_owf s i H Hi) as OI.
+  set (im := imol_of s (o_imol (obj_of s i))) in *.
+  match goal with |- context [let (s1, d) := ?x in _] => destruct x as [s1 d] eqn:E end.
+  assert (S1 : same3 s s1).
+  { destruct (i_multi im).
+    - destruct (new_rows s _) as [sa rs] eqn:E2. apply new_rows_same3 in E2. cbn in E. injection E as <- _.
+      eapply same3_trans; [exact E2 | repeat split].
+    - apply copy_data_same3 in E. exact E. }
+  cbn [new_dc]. destruct S1 as (E1 & E2 & E3).
+  set (s2 := wr_imol _ _ _).
+  assert (H2 : SInv s2).
+  { unfold s2, SInv; cbn. rewrite E1, E2, E3. apply si_rebind_fresh; [reflexivity | exact H]. }
+  clearbody s2. destruct (i_multi im); [|exact H2].
+  match goal with |- SInv (fold_left ?f ?l ?a0) =>
+    assert (G : forall l0 st, SInv st -> SInv (fold_left f l0 st)) end.
+  { induction l0 as [|[p n] t IH]; intros st HS; cbn [fold_left]; [exact HS|].
+    apply IH. cbn [fst snd]. destruct (index_of p (i_phases im)) as [k|]; [|exact HS].
+    apply (reattach_step_sinv st n (mkimol false (nth k (arr st d) O) p [])); [reflexivity | exact HS]. }
+  apply G, H2.
+Qed.
+
+Lemma ensure_views_sinv s i : SInv s -> (i < length (objs s))%nat -> SInv (ensure_views s i).
+Proof.
+  intros H Hi. unfold ensure_views. destruct (is_multi s i); [|exact H].
+  unfold SInv; cbn. apply si_wr_obj; [intros _; cbn; apply SInv_owf; assumption | exact H].
+Qed.
+
+Lemma by_volume_sinv s i : SInv s -> (i < length (objs s))%nat -> SInv (fst (by_volume s i)).
+Proof.
+  intros H Hi. unfold by_volume. destruct (find_dc _ _); [exact H|]. cbn [fst].
+  unfold SInv; cbn. apply (si_add_entry (objs s) (imols s) (dcs s) (o_imol (obj_of s i))).
+  - apply SInv_owf; assumption.
+  - apply ekey_capture.
+  - exact H.
+Qed.
+
+Lemma link_with_sinv s i j fl ph tp :
+  SInv s -> (i < length (objs s))%nat -> (j < length (objs s))%nat -> adm s (OLink i j fl ph tp) = true ->
+  SInv (fst (link_with s i j fl ph tp)).
+Proof.
+  intros H Hi Hj A. unfold link_with. cbn [adm] in A.
+  set (o := obj_of s i) in *. set (o2 := obj_of s j) in *.
+  set (im := imol_of s (o_imol o)) in *. set (im2 := imol_of s (o_imol o2)) in *.
+  destruct (Bool.eqb (i_multi im) (i_multi im2)) eqn:EM; cbn [negb]; [|exact H].
+  apply Bool.eqb_prop in EM.
+  pose proof (SInv_owf s i H Hi) as OI. pose proof (SInv_owf s j H Hj) as OJ. fold o in OI. fold o2 in OJ.
+  set (s1 := if tp then wr_obj s i (mkobj (o_imol o) (o_tc o2) (o_views o) (o_hasv o)) else s).
+  assert (H1 : SInv s1 /\ imols s1 = imols s /\ dcs s1 = dcs s).
+  { unfold s1. destruct tp; [|auto]. split; [|split; reflexivity].
+    unfold SInv; cbn. apply si_wr_obj; [intros _; exact OI | exact H]. }
+  destruct H1 as (H1 & I1 & D1). clearbody s1.
+  destruct (tp && fl && (ph || i_multi im))%bool eqn:SH; cbn [fst ok].
+  - apply Bool.andb_true_iff in SH as [SH1 SH3]. apply Bool.andb_true_iff in SH1 as [-> ->].
+    unfold SInv in *; cbn. rewrite I1 in *.
+    apply (si_rebind_share _ _ _ _ (o_imol o2)); [exact OJ | reflexivity | | exact H1].
+    fold (imol_of s (o_imol o2)). fold im2. unfold capkey; cbn. rewrite <- EM.
+    destruct (i_multi im) eqn:M.
+    + rewrite <- EM in A. cbn in A. apply list_eqb_nat_eq in A. rewrite A. reflexivity.
+    + rewrite Bool.orb_false_r in SH3. subst ph. reflexivity.
+  - unfold new_dc. unfold SInv in *; cbn. rewrite I1, D1 in *.
+    apply si_rebind_fresh; [reflexivity | exact H1].
+Qed.
+
+Section Vol.
+Variable calc1 : nat -> nat -> option phase -> vec -> Q -> Q -> Q.
+Variable calcx : nat -> nat -> list (phase * vec) -> Q -> Q -> Q.
+Variable shared_key : bool.
+Variable cvol : nat -> phase -> Q -> Q -> Q.
+Notation step := (step calc1 calcx shared_key cvol).
+Notation run_world := (run_world calc1 calcx shared_key cvol).
+
+Lemma lift_st w r : w_st (fst (lift w r)) = fst r.
+Proof. reflexivity. Qed.
+
+Lemma step_sinv w o :
+  SInv (w_st w) -> aligned w -> adm (w_st w) o = true -> SInv (w_st (fst (step w o))).
+Proof.
+  intros H A AD. unfold Model.step.
+  destruct (forallb (fun i => Nat.ltb i (length (cobjs (w_cs w)))) (op_objs o)) eqn:G; [|exact H].
+  assert (GV : forall i, In i (op_objs o) -> (i < length (objs (w_st w)))%nat).
+  { intros i Hi. rewrite forallb_forall in G. specialize (G i Hi). apply Nat.ltb_lt in G. unfold aligned in A. lia. }
+  destruct w as [s c]. cbn [w_cs w_st] in *.
+  destruct o; unfold step_valid; cbn [w_st w_cs]; rewrite ?lift_st.
+  - (* ONew *)
+    unfold new_tc.
+    assert (E : forall sa, same3 s sa ->
+       SInv (fst (let (sb, pr) := new_p sa (mkp (hd O ps) false) in new_imol sb (mkimol false (length (rows sa)) pr [])))).
+    { intros sa (E1 & E2 & E3). unfold SInv; cbn. rewrite E2, E3. apply si_new_imol; [reflexivity|].
+      rewrite E1. exact H. }
+    match goal with |- context [let '(a, b) := ?x in _] => destruct x as [s2 ir] eqn:E2 end.
+    assert (H2 : SInv s2 /\ (ir < length (imols s2))%nat /\ objs s2 = objs s).
+    { destruct flows as [|d [|d2 t]].
+      - cbn in E2. injection E2 as <- <-. unfold SInv; cbn. rewrite app_length; cbn.
+        split; [apply si_new_imol; [reflexivity | exact H] | split; [lia | reflexivity]].
+      - cbn in E2. injection E2 as <- <-. unfold SInv; cbn. rewrite app_length; cbn.
+        split; [apply si_new_imol; [reflexivity | exact H] | split; [lia | reflexivity]].
+      - destruct (new_rows _ (d :: d2 :: t)) as [sa rs] eqn:E3. apply new_rows_same3 in E3 as (F1 & F2 & F3).
+        cbn in E2. injection E2 as <- <-. unfold SInv; cbn. cbn in F1, F2, F3. rewrite F1, F2, F3, app_length; cbn.
+        split; [apply si_new_imol; [reflexivity | exact H] | split; [lia | reflexivity]]. }
+    destruct H2 as (H2 & L2 & O2). unfold new_obj. cbn [fst w_st].
+    unfold SInv in *; cbn. apply si_new_obj; [cbn; exact L2 | exact H2].
+  - (* ORead *)
+    destruct (get_property calc1 calcx (mkw s c) i name flow nophase) as [w1 r] eqn:E. cbn [fst].
+    replace w1 with (fst (get_property calc1 calcx (mkw s c) i name flow nophase)) by (rewrite E; reflexivity).
+    rewrite get_property_st. exact H.
+  - (* ORVol *)
+    unfold read_vol. pose proof (by_volume_sinv s i H (GV i ltac:(cbn; auto))) as U.
+    destruct (by_volume s i) as [s1 e]. exact U.
+  - exact H.
+  - exact H.
+  - apply set_phase_sinv, H.
+  - eapply same3_sinv; [apply set_flow_same3 | exact H].
+  - eapply same3_sinv; [apply scale_same3 | exact H].
+  - eapply same3_sinv; [apply fmol_same3 | exact H].
+  - eapply same3_sinv; [apply empty_same3 | exact H].
+  - (* OProxy *) cbn [fst w_st]. apply st_proxy_sinv; [exact H | apply GV; cbn; auto].
+  - cbn [fst w_st]. apply st_flow_proxy_sinv, H.
+  - cbn [fst w_st]. apply st_copy_sinv, H.
+  - apply link_with_sinv; [exact H | apply GV; cbn; auto | apply GV; cbn; auto | exact AD].
+  - (* OUnlink *)
+    pose proof (unlink_sinv s i H (GV i ltac:(cbn; auto))) as U.
+    destruct (unlink s i) as [s1 [e|]]; exact U.
+  - eapply same3_sinv; [apply copy_like_same3 | exact H].
+  - exact H.
+  - exact H.
+  - eapply same3_sinv; [apply copy_phase_same3 | exact H].
+  - (* OMix *)
+    assert (ES : w_st (if energy then read_all calc1 calcx (mkw s c) srcs else mkw s c) = s)
+      by (destruct energy; [apply read_all_st | reflexivity]).
+    match goal with |- context [mix_flows ?a ?b ?cc] => pose proof (mix_flows_same3 a b cc) as MF; set (s2 := mix_flows a b cc) in * end.
+    assert (H2 : SInv s2) by (eapply same3_sinv; [exact MF | exact H]).
+    destruct energy; [rewrite lift_st|]; exact H2.
+  - (* OMix1 *) cbn [fst w_st]. eapply same3_sinv; [apply mix_flows_same3 | exact H].
+  - (* OView *)
+    destruct (i_multi _); [|destruct (Nat.eqb _ _); exact H].
+    destruct (negb _); [exact H|]. destruct (find_view _ _); [exact H|]. destruct (index_of _ _); [|exact H].
+    destruct (nth_error _ _) as [rr|]; [|exact H].
+    cbn [new_imol new_obj fst w_st]. unfold SInv; cbn.
+    pose proof (SInv_owf s i H (GV i ltac:(cbn; auto))) as OI.
+    apply si_wr_obj; [intros _; cbn; rewrite app_length; cbn; lia|].
+    apply si_new_obj; [cbn; rewrite app_length; cbn; lia|].
+    apply si_new_imol; [reflexivity | exact H].
+  - (* OSetPhases *)
+    destruct ps as [|p [|p2 ps]]; try (rewrite ?lift_st; apply set_phase_sinv, H);
+    (destruct (i_multi _);
+     [ match goal with |- context [if ?b then _ else _] => destruct b end; [exact H|];
+       match goal with |- context [multi_rephase ?a1 ?a2 ?a3] =>
+         pose proof (multi_rephase_sinv a1 a2 a3 H) as U; destruct (multi_rephase a1 a2 a3) as [s1 [e|]] end; exact U
+     | cbn [fst w_st]; apply single_to_multi_sinv, H ]).
+  - (* OResetCache *) cbn [fst w_st]. apply ensure_views_sinv; [exact H | apply GV; cbn; auto].
+  - (* OSetPkg *)
+    cbn [fst w_st]. pose proof (GV i ltac:(cbn; auto)) as Hi.
+    apply reset_chem_sinv; [apply ensure_views_sinv; assumption|].
+    pose proof (ensure_views_nob s i) as U. unfold nob in U. lia.
+  - exact H.
+Qed.
+
+Lemma find_dc_spec t l e : find_dc t l = Some e -> In e l /\ d_tc e = t.
+Proof.
+  induction l as [|x r IH]; cbn; [discriminate|].
+  destruct (Nat.eqb_spec (d_tc x) t) as [E|N].
+  - intros H; injection H as <-. auto.
+  - intros H. destruct (IH H). auto.
+Qed.
+
+Lemma dcent_eq e e' : d_tc e = d_tc e' -> ekey e = ekey e' -> e = e'.
+Proof. destruct e, e'; unfold ekey; cbn. intros -> H. injection H as -> -> ->. reflexivity. Qed.
+
+Lemma capture_tc tc im : d_tc (capture tc im) = tc.
+Proof. unfold capture. destruct (i_multi im); reflexivity. Qed.
+
+(* a volumetric read returns what a view built now, on the stream's current data, phase and T/P, returns *)
+Lemma read_vol_spec s i :
+  SInv s -> (i < length (objs s))%nat -> snd (read_vol cvol s i) = spec_vol cvol s i.
+Proof.
+  intros H Hi. unfold read_vol, spec_vol, by_volume.
+  pose proof (SInv_owf s i H Hi) as OI.
+  destruct (find_dc _ _) as [e|] eqn:F; cbn [snd].
+  - apply find_dc_spec in F as [IN TC].
+    assert (E : e = capture (o_tc (obj_of s i)) (imol_of s (o_imol (obj_of s i)))).
+    { apply dcent_eq; [rewrite capture_tc; exact TC|]. rewrite ekey_capture.
+      apply (si_cap _ _ _ H (o_imol (obj_of s i)) OI e IN). }
+    rewrite E. reflexivity.
+  - reflexivity.
+Qed.
+
+Lemma run_sinv ops w :
+  SInv (w_st w) -> aligned w -> run_adm calc1 calcx shared_key cvol w ops = true ->
+  SInv (w_st (run_world w ops)) /\ aligned (run_world w ops).
+Proof.
+  revert w; induction ops as [|o t IH]; intros w H A R; [split; assumption|].
+  cbn [run_adm] in R. apply Bool.andb_true_iff in R as [R1 R2].
+  rewrite run_world_cons. apply IH; [apply step_sinv; assumption | apply step_aligned; exact A | exact R2].
+Qed.
+
+Lemma vol_fresh ops i :
+  run_adm calc1 calcx shared_key cvol w0 ops = true ->
+  (i < length (cobjs (w_cs (run_world w0 ops))))%nat ->
+  snd (read_vol cvol (w_st (run_world w0 ops)) i) = spec_vol cvol (w_st (run_world w0 ops)) i.
+Proof.
+  intros R Hi. destruct (run_sinv ops w0 SInv_st0 eq_refl R) as [H A].
+  apply read_vol_spec; [exact H | unfold aligned in A; lia].
+Qed.
+
+Lemma vol_op_fresh ops i :
+  run_adm calc1 calcx shared_key cvol w0 ops = true ->
+  (i < length (cobjs (w_cs (run_world w0 ops))))%nat ->
+  snd (step (run_world w0 ops) (ORVol i)) = BVec (spec_vol cvol (w_st (run_world w0 ops)) i).
+Proof.
+  intros R Hi. unfold Model.step. cbn [op_objs forallb]. rewrite Bool.andb_true_r.
+  destruct (Nat.ltb_spec i (length (cobjs (w_cs (run_world w0 ops))))) as [L|G]; [|lia].
+  unfold step_valid. pose proof (vol_fresh ops i R Hi) as V.
+  destruct (read_vol cvol (w_st (run_world w0 ops)) i) as [s1 v]. cbn [snd] in *. rewrite V. reflexivity.
+Qed.
+End Vol.
+(* the volumetric specification is a function of (class, phases, flows, T, P) only *)
+Definition vol_of_pstate (cvol : nat -> phase -> Q -> Q -> Q) (p : pstate) : vec :=
+  let conv (q : phase) (r : vec) := map2 (fun j x => x * (1000 * cvol j q (ps_T p) (ps_P p))) (seq O nchem) r in
+  vsum_rows (if ps_multi p then map (fun rp => conv (snd rp) (fst rp)) (combine (ps_rows p) (ps_phases p))
+             else [conv (hd O (ps_phases p)) (hd [] (ps_rows p))]).
+
+Lemma map_combine_map {A B C D} (g : A -> B) (f : B * C -> D) (l : list A) (l2 : list C) :
+  map f (combine (map g l) l2) = map (fun rp => f (g (fst rp), snd rp)) (combine l l2).
+Proof.
+  revert l2; induction l as [|a l IH]; intros [|c l2]; cbn; auto. rewrite IH. reflexivity.
+Qed.
+
+Lemma spec_vol_pstate cvol s i : spec_vol cvol s i = vol_of_pstate cvol (pstate_of s i).
+Proof.
+  unfold spec_vol, vol_of_pstate, pstate_of, view_rows, capture, data_rows, phase_of.
+  destruct (i_multi (imol_of s (o_imol (obj_of s i)))) eqn:M; cbn [d_ph d_data d_phases d_tc ps_multi ps_rows ps_phases ps_T ps_P hd].
+  - f_equal. rewrite map_combine_map. reflexivity.
+  - reflexivity.
 Qed.
